@@ -3,6 +3,7 @@
 
     bin/check <ID> <quick|thorough>
     bin/check <ID> --replay <path>
+    bin/check <ID> --selftest      (the quick check must fire on the seeded changes of seeded/<ID>*/)
 
 For one property it
   (M) model-checks the family's TLA+ spec with TLC (invariants, action properties),
@@ -354,6 +355,35 @@ def report(pid, st):
     return 0
 
 
+def selftest(pid):
+    """Binding self-test: the property's quick check must report a violation on a scratch worktree of /repo
+    that carries a seeded change known to break the property (seeded/<pid>*/patch.diff), and nothing on the
+    unchanged worktree.  Shows that the specification is bound to the code and not vacuous."""
+    patches = sorted(glob.glob(os.path.join(VERIF, "seeded", pid + "*", "patch.diff")))
+    if not patches:
+        raise Infra("no seeded change for %s" % pid)
+    ok = True
+    for patch in patches:
+        wt = tempfile.mkdtemp(prefix="selftest-")
+        shutil.rmtree(wt)
+        out = tempfile.mkdtemp(prefix="selftest-out-")
+        try:
+            subprocess.run(["git", "-C", "/repo", "worktree", "add", "-q", "--detach", wt, "HEAD"], check=True)
+            subprocess.run(["git", "apply", patch], cwd=wt, check=True)
+            env = dict(os.environ, VERIF_REPO=wt, VERIF_OUT=out)
+            p = subprocess.run([os.path.join(VERIF, "bin", "check"), pid, "quick"], env=env, capture_output=True, text=True)
+            hit = p.returncode == 1 and "VIOLATION property=%s" % pid in p.stdout
+            log("selftest %s with %s: %s" % (pid, os.path.relpath(patch, VERIF), "violation reported" if hit else "NOT DETECTED (rc=%d)" % p.returncode))
+            ok = ok and hit
+        finally:
+            subprocess.run(["git", "-C", "/repo", "worktree", "remove", "--force", wt])
+            shutil.rmtree(wt, ignore_errors=True)
+            shutil.rmtree(out, ignore_errors=True)
+            shutil.rmtree(os.path.join(BUILD, "alt-" + hashlib.sha1(wt.encode()).hexdigest()[:10]), ignore_errors=True)
+    log("SELFTEST %s" % ("OK" if ok else "FAILED"))
+    return 0 if ok else 2
+
+
 def main():
     import props
     if len(sys.argv) < 3:
@@ -367,6 +397,8 @@ def main():
     try:
         if sys.argv[2] == "--replay":
             return props.replay(pid, sys.argv[3])
+        if sys.argv[2] == "--selftest":
+            return selftest(pid)
         tier = os.environ.get("VERIF_TIER") or sys.argv[2]
         if sys.argv[2] in ("quick", "thorough"):
             tier = sys.argv[2]
